@@ -196,6 +196,7 @@ pub mod hash_map {
         }
         pub fn or_insert(self, v: V) -> &'a mut V { self.or_insert_with(|| v) }
         pub fn or_default(self) -> &'a mut V where V: Default { self.or_insert_with(V::default) }
+        pub fn and_modify<F: FnOnce(&mut V)>(mut self, f: F) -> Self { if let Entry::Occupied(r) = &mut self { f(r); } self }
     }
 }
 impl<K: Eq, V> HashMap<K, V> {
@@ -413,3 +414,99 @@ impl<'a, T> IntoIterator for &'a BTreeSet<T> {
 }
 impl<T> serde::Serialize for BTreeSet<T> { fn serialize<S: serde::Serializer>(&self, _s: S) -> Result<S::Ok, S::Error> { unimplemented!() } }
 impl<'de, T> serde::Deserialize<'de> for BTreeSet<T> { fn deserialize<D: serde::Deserializer<'de>>(_d: D) -> Result<Self, D::Error> { unimplemented!() } }
+
+// ------------------------------------------------------------ wider API surface (so that edits to the code under
+// test that use more of the std API still build against the shim)
+pub mod btree_map {
+    use super::Slots;
+    pub enum Entry<'a, K, V> { Occupied(OccupiedEntry<'a, K, V>), Vacant(VacantEntry<'a, K, V>) }
+    pub struct OccupiedEntry<'a, K, V> { pub(crate) s: &'a mut Slots<(K, V)>, pub(crate) i: usize }
+    pub struct VacantEntry<'a, K, V> { pub(crate) s: &'a mut Slots<(K, V)>, pub(crate) i: usize, pub(crate) k: K }
+    impl<'a, K, V> OccupiedEntry<'a, K, V> {
+        pub fn get(&self) -> &V { &self.s.get(self.i).1 }
+        pub fn get_mut(&mut self) -> &mut V { &mut self.s.get_mut(self.i).1 }
+        pub fn into_mut(self) -> &'a mut V { &mut self.s.get_mut(self.i).1 }
+        pub fn key(&self) -> &K { &self.s.get(self.i).0 }
+        pub fn insert(&mut self, v: V) -> V { std::mem::replace(&mut self.s.get_mut(self.i).1, v) }
+        pub fn remove(self) -> V { self.s.remove_at(self.i).1 }
+    }
+    impl<'a, K, V> VacantEntry<'a, K, V> {
+        pub fn key(&self) -> &K { &self.k }
+        pub fn insert(self, v: V) -> &'a mut V { self.s.insert_at(self.i, (self.k, v)); &mut self.s.get_mut(self.i).1 }
+    }
+    impl<'a, K, V> Entry<'a, K, V> {
+        pub fn or_insert_with<F: FnOnce() -> V>(self, f: F) -> &'a mut V { match self { Entry::Occupied(o) => o.into_mut(), Entry::Vacant(v) => v.insert(f()) } }
+        pub fn or_insert(self, v: V) -> &'a mut V { self.or_insert_with(|| v) }
+        pub fn or_default(self) -> &'a mut V where V: Default { self.or_insert_with(V::default) }
+        pub fn and_modify<F: FnOnce(&mut V)>(mut self, f: F) -> Self { if let Entry::Occupied(o) = &mut self { f(o.get_mut()); } self }
+        pub fn key(&self) -> &K { match self { Entry::Occupied(o) => o.key(), Entry::Vacant(v) => v.key() } }
+    }
+}
+impl<K: Ord, V> BTreeMap<K, V> {
+    pub fn entry(&mut self, k: K) -> btree_map::Entry<'_, K, V> {
+        match self.search(&k) {
+            Ok(i) => btree_map::Entry::Occupied(btree_map::OccupiedEntry { s: &mut self.s, i }),
+            Err(i) => btree_map::Entry::Vacant(btree_map::VacantEntry { s: &mut self.s, i, k }),
+        }
+    }
+    pub fn get_mut<Q: ?Sized + Ord>(&mut self, k: &Q) -> Option<&mut V> where K: Borrow<Q> {
+        match self.search(k) { Ok(i) => Some(&mut self.s.get_mut(i).1), Err(_) => None }
+    }
+    pub fn get_key_value<Q: ?Sized + Ord>(&self, k: &Q) -> Option<(&K, &V)> where K: Borrow<Q> {
+        match self.search(k) { Ok(i) => { let e = self.s.get(i); Some((&e.0, &e.1)) } Err(_) => None }
+    }
+    pub fn first_key_value(&self) -> Option<(&K, &V)> { if self.s.len() == 0 { None } else { let e = self.s.get(0); Some((&e.0, &e.1)) } }
+    pub fn last_key_value(&self) -> Option<(&K, &V)> { if self.s.len() == 0 { None } else { let e = self.s.get(self.s.len() - 1); Some((&e.0, &e.1)) } }
+    pub fn pop_first(&mut self) -> Option<(K, V)> { if self.s.len() == 0 { None } else { Some(self.s.remove_at(0)) } }
+    pub fn pop_last(&mut self) -> Option<(K, V)> { if self.s.len() == 0 { None } else { let n = self.s.len() - 1; Some(self.s.remove_at(n)) } }
+    pub fn clear(&mut self) { self.s.clear() }
+    pub fn values_mut(&mut self) -> impl Iterator<Item = &mut V> + '_ { self.s.iter_mut().map(|(_, v)| v) }
+    pub fn iter_mut(&mut self) -> impl Iterator<Item = (&K, &mut V)> + '_ { self.s.iter_mut().map(|(k, v)| (&*k, v)) }
+    pub fn into_keys(self) -> impl Iterator<Item = K> { self.s.into_iter().map(|(k, _)| k) }
+    pub fn into_values(self) -> impl Iterator<Item = V> { self.s.into_iter().map(|(_, v)| v) }
+    pub fn append(&mut self, other: &mut Self) { let o = std::mem::take(other); for (k, v) in o { self.insert(k, v); } }
+    pub fn remove_entry<Q: ?Sized + Ord>(&mut self, k: &Q) -> Option<(K, V)> where K: Borrow<Q> {
+        match self.search(k) { Ok(i) => Some(self.s.remove_at(i)), Err(_) => None }
+    }
+}
+impl<K: Eq, V> HashMap<K, V> {
+    pub fn iter_mut(&mut self) -> impl Iterator<Item = (&K, &mut V)> + '_ { self.s.iter_mut().map(|(k, v)| (&*k, v)) }
+    pub fn into_keys(self) -> impl Iterator<Item = K> { self.s.into_iter().map(|(k, _)| k) }
+    pub fn into_values(self) -> impl Iterator<Item = V> { self.s.into_iter().map(|(_, v)| v) }
+    pub fn get_key_value<Q: ?Sized + Eq>(&self, k: &Q) -> Option<(&K, &V)> where K: Borrow<Q> { self.pos(k).map(|i| { let e = self.s.get(i); (&e.0, &e.1) }) }
+    pub fn remove_entry<Q: ?Sized + Eq>(&mut self, k: &Q) -> Option<(K, V)> where K: Borrow<Q> { self.pos(k).map(|i| self.s.remove_at(i)) }
+    pub fn drain(&mut self) -> impl Iterator<Item = (K, V)> { std::mem::take(&mut self.s).into_iter() }
+    pub fn reserve(&mut self, _n: usize) {}
+    pub fn shrink_to_fit(&mut self) {}
+}
+impl<'a, K, V> IntoIterator for &'a mut HashMap<K, V> {
+    type Item = (&'a K, &'a mut V);
+    type IntoIter = std::iter::Map<std::iter::Flatten<std::slice::IterMut<'a, Option<(K, V)>>>, fn(&'a mut (K, V)) -> (&'a K, &'a mut V)>;
+    fn into_iter(self) -> Self::IntoIter { self.s.items.iter_mut().flatten().map(|e| (&e.0, &mut e.1)) }
+}
+impl<T: Eq> HashSet<T> {
+    pub fn clear(&mut self) { self.s.clear() }
+    pub fn with_capacity(_n: usize) -> Self { Self::default() }
+    pub fn reserve(&mut self, _n: usize) {}
+    pub fn take<Q: ?Sized + Eq>(&mut self, k: &Q) -> Option<T> where T: Borrow<Q> { self.pos(k).map(|i| self.s.remove_at(i)) }
+    pub fn drain(&mut self) -> impl Iterator<Item = T> { std::mem::take(&mut self.s).into_iter() }
+    pub fn is_subset(&self, o: &Self) -> bool { self.s.iter().all(|t| o.contains(t)) }
+    pub fn is_superset(&self, o: &Self) -> bool { o.is_subset(self) }
+    pub fn is_disjoint(&self, o: &Self) -> bool { !self.s.iter().any(|t| o.contains(t)) }
+    pub fn intersection<'a>(&'a self, o: &'a Self) -> impl Iterator<Item = &'a T> + 'a { self.s.iter().filter(move |t| o.contains(*t)) }
+    pub fn difference<'a>(&'a self, o: &'a Self) -> impl Iterator<Item = &'a T> + 'a { self.s.iter().filter(move |t| !o.contains(*t)) }
+    pub fn union<'a>(&'a self, o: &'a Self) -> impl Iterator<Item = &'a T> + 'a { self.s.iter().chain(o.s.iter().filter(move |t| !self.contains(*t))) }
+}
+impl<T: Ord> BTreeSet<T> {
+    pub fn clear(&mut self) { self.s.clear() }
+    pub fn pop_first(&mut self) -> Option<T> { if self.s.len() == 0 { None } else { Some(self.s.remove_at(0)) } }
+    pub fn pop_last(&mut self) -> Option<T> { if self.s.len() == 0 { None } else { let n = self.s.len() - 1; Some(self.s.remove_at(n)) } }
+    pub fn is_subset(&self, o: &Self) -> bool { self.s.iter().all(|t| o.contains(t)) }
+    pub fn is_disjoint(&self, o: &Self) -> bool { !self.s.iter().any(|t| o.contains(t)) }
+    pub fn intersection<'a>(&'a self, o: &'a Self) -> impl Iterator<Item = &'a T> + 'a { self.s.iter().filter(move |t| o.contains(*t)) }
+    pub fn difference<'a>(&'a self, o: &'a Self) -> impl Iterator<Item = &'a T> + 'a { self.s.iter().filter(move |t| !o.contains(*t)) }
+    pub fn take<Q: ?Sized + Ord>(&mut self, k: &Q) -> Option<T> where T: Borrow<Q> { match self.search(k) { Ok(i) => Some(self.s.remove_at(i)), Err(_) => None } }
+    pub fn get<Q: ?Sized + Ord>(&self, k: &Q) -> Option<&T> where T: Borrow<Q> { match self.search(k) { Ok(i) => Some(self.s.get(i)), Err(_) => None } }
+}
+impl<T> Default for SlotsIntoIter<T> { fn default() -> Self { SlotsIntoIter(std::marker::PhantomData) } }
+pub struct SlotsIntoIter<T>(std::marker::PhantomData<T>);
